@@ -153,7 +153,7 @@ def map_call(ctx, i):
 
 
 def run(ctx):
-    n = 90 if ctx.tier == "quick" else 700
+    n = 90 if ctx.tier == "quick" else 2000
     if ctx.replay:
         c = ctx.replay["case"]
         fam = {"family": c.get("family", "dag"), "spec": c["spec"], "inputs": c["inputs"], "kw": {}}
